@@ -15,8 +15,8 @@ def gen(rng, n, tier, pid):
             # 4n input of token kinds at <= 4 MB so that a case stays within seconds
             if k not in linear and s > 250000:
                 continue
-            for h in range(3):
-                out.append(f"{k} {s} {rng.randrange(1, 1 << 30) * 3 + h}")
+            for h in range(4):
+                out.append(f"{k} {s} {rng.randrange(1, 1 << 30) * 4 + h}")
     return out[: max(n, 1)] if tier == "quick" else out
 
 
